@@ -218,6 +218,20 @@ CHECKS.update({
     ),
 })
 
+CHECKS.update({
+    'C07': dict(
+        script='checks/c07.py', category='model_checking', design='DESIGN.md §4 C07',
+        text=('ZonedDateTime::forComponents -> TimeZone::getOffsetDateTime -> Extended/Basic processor on the real IR with the '
+              'time of day (hour, minute, second) symbolic and the local date a driver case split: every date that contains a '
+              'zic discontinuity of the zone in 2000..2049 (in either offset), its neighbours and seed-drawn ordinary dates; the '
+              'processor cache is primed with an earlier instant first. Per leaf and zic segment, SMT decides: a wall time that '
+              'occurs once comes back unchanged with that offset, one that occurs twice comes back unchanged with one of the two '
+              'offsets, one that does not occur is moved forward by the gap and gets the later offset; never an error value; the '
+              'result equals its own rebuild from epoch seconds. Quick: a stratified zone sample; thorough: all zones.'),
+        technique='symbolic execution of clang LLVM IR (llsym) + SMT against gap/overlap classification from zic; function contracts for the calendar kernels',
+    ),
+})
+
 NOT_APPLICABLE = {
     'C19': ('the generators are sampling loops around pytz/dateutil tzinfo objects backed by binary tz files and '
             'C-implemented datetime; neither CrossHair nor our symbolic executor can make those symbolic, and a '
